@@ -198,7 +198,7 @@ GuardsSuffice ==
       /\ \A S \in SUBSET (0..(Len(t.st) - 1)) : SafeRemoveBatch(t, S) => WF(RemoveBatch(t, S))
       /\ \A p \in (-1)..Len(t.st) : WF(Chop(t, p))
       /\ WF(RemoveUnused(t)) /\ WF(Clone(t))
-      /\ \A o2 \in Objs : WF(obj[o2]) =>
+      /\ \A o2 \in Objs : (WF(obj[o2]) /\ CounterAhead(t.st, t.ctr)) =>
            \A start \in 0..Len(obj[o2].st), ch \in Choices :
               LET r == AppendFrom(t, obj[o2], start, ch)
               IN WF(r) /\ CounterAhead(r.st, r.ctr) /\ Len(r.st) <= Len(t.st) + Len(obj[o2].st) - start
